@@ -10,7 +10,7 @@
 (*   c.connect c | c.send c kind | c.close c          client side (kind: "get" "bad"      *)
 (*                                                     "boom" "half")                     *)
 (*   srv.permit_acquired available | srv.accepted c | srv.handler_dropping available |        *)
-(*   srv.run_dropped_senders | srv.run_return | fire                                      *)
+(*   srv.run_dropped_senders | srv.run_return | fire | srv.accept_failed (injected)       *)
 (* Each such event must be explained by the corresponding action of Server.tla           *)
 (* (ListenerAcquire with the permit count it reports, ListenerAccept(c), a handler ending *)
 (* in any of the ways that drop it, ...); the handler's internal steps (taking a request, *)
@@ -84,6 +84,8 @@ EvAccept ==
     /\ Ev("srv.accepted")
     /\ IF E.c \in Conns THEN ListenerAccept(E.c) ELSE \E c \in Conns : ListenerAccept(c)
     /\ Consume
+\* an accept(2) failure injected by the harness
+EvAcceptFailed == Ev("srv.accept_failed") /\ ListenerAcceptFails /\ Consume
 \* Drop for Handler: some handler ends (which one is inferred).  The event is logged right BEFORE
 \* add_permits(1), so in the merged order a drop always precedes the acquire that takes its permit;
 \* the permit numbers the hooks report are read a moment later and can only lag behind (<=).
@@ -119,7 +121,7 @@ Progress == TLCSet(2, IF l = TLCGet(1) /\ i > TLCGet(2) THEN i ELSE IF l > TLCGe
 
 TNext ==
     \/ EvConnect \/ EvSend \/ EvClose \/ EvAcquire \/ EvAccept \/ EvHandlerDrop \/ EvFire
-    \/ EvDroppedSenders \/ EvRunReturn \/ EvSkip \/ Silent \/ NextScenario
+    \/ EvDroppedSenders \/ EvRunReturn \/ EvSkip \/ EvAcceptFailed \/ Silent \/ NextScenario
 TSpec == TInit /\ [][TNext]_tvars
 
 Accepted ==
